@@ -96,7 +96,7 @@ def floors(tier):
         "gen:altport": 1,
         "gen:wb-noisa": 3,
         "opt:--lcd-timeout": 5,
-        "elements_cut_short_at_once": 3,
+        "elements_cut_short_at_once": 1,
         "revisit_after_other": 50 if q else 700,
         "fresh_determinism_checked": 5,
         "set:models": 8 if q else 15,
